@@ -160,6 +160,40 @@ def TokTextAt (line : Str) (e : Nat) (t w : Str) : Prop :=
       stripContinuations t = stripContinuations w ++ r ∧ (hasContinuation t = false → t = w ++ r)) ∨
   (w = ['\n'] ∧ t.head? = some '\n')
 
+/-- the text `t` is `w` followed by a residue, up to deleted backslash-newline pairs (`Del`);
+    this is what holds of EVERY delivered token with a string value.  `TokTextAt` follows when
+    the value holds no adjacent backslash-newline (`TokDelAt.textAt`); witness that it does not
+    hold in general: the word `"\\\⏎⏎"`, see `TokText.lean`. -/
+def TokDelAt (line : Str) (e : Nat) (t w : Str) : Prop :=
+  (∃ r ∈ residues (wordPathV w) line e, Del t (w ++ r)) ∨ (w = ['\n'] ∧ t.head? = some '\n')
+
+theorem residues_noNL {b : Bool} {line : Str} {e : Nat} {r : Str} (h : r ∈ residues b line e) :
+    r.contains '\n' = false := by
+  unfold residues at h
+  simp only [List.mem_append, List.mem_cons, List.mem_nil_iff, or_false] at h
+  rcases h with ((rfl | h) | h) | h
+  · rfl
+  · split at h
+    · simp only [List.mem_cons, List.mem_nil_iff, or_false] at h; subst h; decide
+    · cases h
+  · split at h
+    · simp only [List.mem_cons, List.mem_nil_iff, or_false] at h
+      rcases h with rfl | rfl <;> decide
+    · cases h
+  · split at h
+    · simp only [List.mem_cons, List.mem_nil_iff, or_false] at h
+      rcases h with rfl | rfl <;> decide
+    · cases h
+
+theorem TokDelAt.textAt {line : Str} {e : Nat} {t w : Str} (h : TokDelAt line e t w)
+    (hw : hasContinuation w = false) : TokTextAt line e t w := by
+  rcases h with ⟨r, hr, hd⟩ | h
+  · left
+    have hc : hasContinuation (w ++ r) = false := hasCont_append_of_noNL hw (residues_noNL hr)
+    refine ⟨r, hr, ?_, fun ht => hd.eq_of_noCont ht⟩
+    rw [hd.strip hc, strip_of_noCont w hw]
+  · exact Or.inr h
+
 theorem stripContinuations_of_no_backslash : ∀ (w : Str), w.contains '\\' = false →
     stripContinuations w = w
   | [], _ => rfl
@@ -199,14 +233,10 @@ theorem FromTok.text {line : Str} {j : Nat} {p : Span} {w : Str} (h : FromTok li
     · exact h
   simp only [hl, he, Nat.add_sub_cancel]
   refine ⟨Nat.le_add_left _ _, by omega, hnb, ?_⟩
+  refine TokDelAt.textAt ?_ (hasCont_of_noBackslash w hnb)
   rcases halt with ⟨_, _, _, r, hr, hrel⟩ | hnl
   · left
-    unfold textRel at hrel
-    simp only [Bool.and_eq_true, Bool.or_eq_true, beq_iff_eq] at hrel
-    refine ⟨r, hr, hrel.1, fun hc => ?_⟩
-    rcases hrel.2 with h | h
-    · rw [hc] at h; cases h
-    · exact h
+    exact ⟨r, hr, Del.of_delB _ _ hrel⟩
   · right
     unfold nlOver at hnl
     simp only [Bool.and_eq_true, beq_iff_eq] at hnl
@@ -248,9 +278,9 @@ theorem leaf_text {src : Str} {J : Nat} {m : Node} {p : Span} {w : Str}
 /-! ## tokens of redirects and words -/
 
 /-- the text under a delivered token with a string value (any type) -/
-theorem Tk.text {line : Str} {tok : Token} {v : Str} (h : Tk line tok) (hv : tok.value = .str v) :
+theorem Tk.del {line : Str} {tok : Token} {v : Str} (h : Tk line tok) (hv : tok.value = .str v) :
     tok.lexpos < tok.endlexpos ∧
-      TokTextAt line tok.endlexpos (Str.slice line tok.lexpos tok.endlexpos) v := by
+      TokDelAt line tok.endlexpos (Str.slice line tok.lexpos tok.endlexpos) v := by
   obtain ⟨a, e, hp, hae, _, _, _, _, _, halt⟩ := h.1.str hv
   have hl : tok.lexpos = a := by simp [Token.lexpos, hp]
   have he : tok.endlexpos = e := by simp [Token.endlexpos, hp]
@@ -258,16 +288,19 @@ theorem Tk.text {line : Str} {tok : Token} {v : Str} (h : Tk line tok) (hv : tok
   refine ⟨hae, ?_⟩
   rcases halt with ⟨_, _, _, r, hr, hrel⟩ | hnl
   · left
-    unfold textRel at hrel
-    simp only [Bool.and_eq_true, Bool.or_eq_true, beq_iff_eq] at hrel
-    refine ⟨r, hr, hrel.1, fun hc => ?_⟩
-    rcases hrel.2 with h | h
-    · rw [hc] at h; cases h
-    · exact h
+    exact ⟨r, hr, Del.of_delB _ _ hrel⟩
   · right
     unfold nlOver at hnl
     simp only [Bool.and_eq_true, beq_iff_eq] at hnl
     exact ⟨hnl.1.2, hnl.2⟩
+
+/-- the same in the `stripContinuations` form, for a value that holds no adjacent
+    backslash-newline -/
+theorem Tk.text {line : Str} {tok : Token} {v : Str} (h : Tk line tok) (hv : tok.value = .str v)
+    (hc : hasContinuation v = false) :
+    tok.lexpos < tok.endlexpos ∧
+      TokTextAt line tok.endlexpos (Str.slice line tok.lexpos tok.endlexpos) v :=
+  ⟨(h.del hv).1, (h.del hv).2.textAt hc⟩
 
 /-- the text `t` is a string of digits denoting `k` (continuations removed, possibly followed by
     a residue) -/
